@@ -193,8 +193,11 @@ Definition or_default (o : option str) (d : str) : str := match o with Some s =>
 Definition DEFAULT_PREFIX : str := [].
 Definition DEFAULT_SUFFIX : str := K "Iden"%string.
 
+(* format_ident! writes an identifier argument without its raw prefix r# (IdentFragment) *)
+Definition unraw (ident : str) : str :=
+  match ident with 114 :: 35 :: t => t | _ => ident end.
 Definition enum_def_name (a : enum_def_args) (ident : str) : str :=
-  or_default (ed_prefix a) DEFAULT_PREFIX ++ ident ++ or_default (ed_suffix a) DEFAULT_SUFFIX.
+  or_default (ed_prefix a) DEFAULT_PREFIX ++ unraw ident ++ or_default (ed_suffix a) DEFAULT_SUFFIX.
 Definition enum_def_table_name (a : enum_def_args) (ident : str) : str :=
   match ed_table_name a with Some t => t | None => snake_case ident end.
 (* variant identifiers of the generated enum, in order *)
